@@ -11,9 +11,10 @@ import (
 // The generator runs the history while it builds it (it needs the live views), then the finished case is
 // executed again from its JSON by runCase: records always come from the replay path.
 //
-// Unless a case is "wild", the generator stays out of the input regions of the recorded findings of C17
-// (known/C17.json): those are exercised by the corpus cases and by the few wild cases of every run, so that
-// a mismatch in the bulk of the cases is never shadowed by a known one.
+// Unless a case is "wild", the generator stays out of the input regions of the OPEN findings of C17
+// (known/C17.json: fill coercion order C17-N8, non-index numeric key type check C17-N9): those are exercised by
+// the corpus cases and by the few wild cases of every run; every classification of a mismatch costs a coqc run.
+// The regions of the findings repaired in /repo (F11, F10, C17-N1..N7) are generated freely.
 
 var bufSizes = []int{0, 1, 2, 3, 4, 7, 8, 9, 12, 15, 16, 17, 24, 31, 32, 33, 40, 48, 63, 64}
 
@@ -120,19 +121,6 @@ func finiteBits(r *vh.Rng) float64 {
 	}
 }
 
-// would goja's int64-based conversion differ from the modular one? (finding F10 seen through C17)
-func convDiffers(kind int, f float64) bool {
-	if kind == 2 || kind >= 7 || math.IsNaN(f) || math.IsInf(f, 0) {
-		return false
-	}
-	if math.Abs(f) < 9223372036854775808.0 {
-		return false
-	}
-	bi, _ := big.NewFloat(f).Int(nil)
-	m := new(big.Int).Lsh(big.NewInt(1), uint(8*esize[kind]))
-	return new(big.Int).Mod(bi, m).Sign() != 0
-}
-
 func (g *gen) val(kind int, detP int, buf int, allowMismatch bool) VArg {
 	r := g.r
 	big_ := isBig(kind)
@@ -179,12 +167,7 @@ func (g *gen) val(kind int, detP int, buf int, allowMismatch bool) VArg {
 			case 4:
 				f = finiteBits(r)
 			}
-			if g.wild || !convDiffers(kind, f) || tries > 20 {
-				if tries > 20 {
-					f = 1
-				}
-				break
-			}
+			break
 		}
 		if math.IsNaN(f) {
 			f = math.Float64frombits(0x7ff8000000000000)
@@ -207,9 +190,9 @@ func (g *gen) liveLen(b int) int {
 func (g *gen) op() *Op {
 	r, e := g.r, g.e
 	nv, nd, nb := len(e.views), len(e.dvs), len(e.bufs)
-	w := []int{14, 5, 10, 14, 7, 8, 8, 7, 4, 5, 3, 8, 9, 3, 4, 2, 2}
+	w := []int{14, 5, 10, 14, 7, 8, 8, 7, 4, 5, 3, 8, 9, 3, 4, 2, 2, 3}
 	if nv == 0 {
-		w = []int{30, 8, 0, 0, 0, 0, 0, 0, 0, 0, 0, 0, 0, 2, 2, 1, 0}
+		w = []int{30, 8, 0, 0, 0, 0, 0, 0, 0, 0, 0, 0, 0, 2, 2, 1, 0, 0}
 	} else if nv > 12 {
 		w[0], w[8], w[9] = 1, 1, 1
 	}
@@ -270,9 +253,6 @@ func (g *gen) op() *Op {
 			o.A1 = g.optIdx(n, detP, b, 15)
 			o.A2 = g.optIdx(n, detP, b, 35)
 		}
-		if o.A2 != nil && o.A2.D == b+1 && !g.wild { // recorded finding: RangeError instead of TypeError
-			o.A2.D = 0
-		}
 		return o
 	case 2, 3: // get / set
 		v := r.Intn(nv)
@@ -292,10 +272,10 @@ func (g *gen) op() *Op {
 		case 3:
 			s := []string{"2147483648", "4294967296", "9007199254740992", "9223372036854775808", "1000000000000000000000", "-9007199254740992", "4294967295"}[r.Intn(7)]
 			o.Key = &s
-			mismatchOK = false // beyond 2^53 goja treats the key like a non-index numeric key (see below)
+			mismatchOK = g.wild // beyond 2^53 goja treats the key like a non-index numeric key (see below)
 		case 4:
 			o.Ks = []string{"-0", "1.5", "NaN", "Infinity", "-Infinity", "1e-7", "0.5", "-1.5", "1e+21x"}[r.Intn(8)]
-			mismatchOK = false // a non-index numeric key with a value of the wrong type: goja does not throw (noted, not modelled)
+			mismatchOK = g.wild // open finding C17-N9: a non-index numeric key with a value of the wrong type does not throw
 		}
 		if which == 3 {
 			o.O = "set"
@@ -315,10 +295,7 @@ func (g *gen) op() *Op {
 		}
 		o := &Op{O: "setarr", V: v, K: vm.kind}
 		for i := 0; i < n; i++ {
-			x := g.val(vm.kind, 3, -1, true)
-			if x.D == vm.buf+1 && !g.wild { // recorded finding: store after detach
-				x.D = 0
-			}
+			x := g.val(vm.kind, 6, vm.buf, true)
 			o.Src = append(o.Src, x)
 		}
 		if r.Chance(70) {
@@ -344,32 +321,22 @@ func (g *gen) op() *Op {
 		} else {
 			o.A1 = g.idx(dm.length, detP, dm.buf)
 		}
-		if !g.wild && dm.kind != sm.kind {
-			toff := argInt(o.A1, 0)
-			tooLarge := toff < 0 || int64(sm.length)+toff > int64(dm.length)
-			if isBig(dm.kind) != isBig(sm.kind) && (tooLarge || sm.length == 0) {
-				return nil // recorded finding: error precedence / missing TypeError
-			}
-			if !tooLarge && (sm.off >= g.liveLen(sm.buf) || int64(dm.off)+toff*int64(esize[dm.kind]) >= int64(g.liveLen(dm.buf))) {
-				return nil // recorded finding: Go run-time panic on &data[len(data)]
-			}
-			if !isBig(sm.kind) && sm.kind >= 7 && dm.kind != 2 && dm.kind < 9 {
-				// float source into an integer kind: values beyond 2^63 would hit F10; check the actual elements
-				for i := 0; i < sm.length; i++ {
-					var f float64
-					m := e.bufs[sm.buf].mem[sm.off+i*esize[sm.kind]:]
-					if sm.kind == 7 {
-						f = float64(math.Float32frombits(uint32(m[0]) | uint32(m[1])<<8 | uint32(m[2])<<16 | uint32(m[3])<<24))
-					} else {
-						var u uint64
-						for j := 7; j >= 0; j-- {
-							u = u<<8 | uint64(m[j])
-						}
-						f = math.Float64frombits(u)
+		if dm.kind != sm.kind && sm.kind >= 7 && dm.kind >= 7 && dm.kind < 9 {
+			// a NaN moved between the two float kinds: the stored payload is implementation-defined
+			for i := 0; i < sm.length; i++ {
+				m := e.bufs[sm.buf].mem[sm.off+i*esize[sm.kind]:]
+				var f float64
+				if sm.kind == 7 {
+					f = float64(math.Float32frombits(uint32(m[0]) | uint32(m[1])<<8 | uint32(m[2])<<16 | uint32(m[3])<<24))
+				} else {
+					var u uint64
+					for j := 7; j >= 0; j-- {
+						u = u<<8 | uint64(m[j])
 					}
-					if convDiffers(dm.kind, f) || (math.IsNaN(f) && dm.kind >= 7) {
-						return nil // (a NaN moved between float kinds: payload is implementation-defined)
-					}
+					f = math.Float64frombits(u)
+				}
+				if math.IsNaN(f) {
+					return nil
 				}
 			}
 		}
@@ -378,27 +345,13 @@ func (g *gen) op() *Op {
 		v := r.Intn(nv)
 		vm := e.views[v]
 		o := &Op{O: "copywithin", V: v, A1: g.idx(vm.length, detP, vm.buf), A2: g.idx(vm.length, detP, vm.buf), A3: g.optIdx(vm.length, detP, vm.buf, 35)}
-		if !g.wild {
-			l := int64(vm.length)
-			to, from, final := relIdx(argInt(o.A1, 0), l), relIdx(argInt(o.A2, 0), l), relIdx(argInt(o.A3, l), l)
-			if final-from > l-to { // F11: count not clamped to len - to
-				return nil
-			}
-		}
 		return o
 	case 7: // fill
 		v := r.Intn(nv)
 		vm := e.views[v]
 		val := g.val(vm.kind, detP, vm.buf, true)
 		o := &Op{O: "fill", V: v, K: vm.kind, Val: &val, A1: g.optIdx(vm.length, detP, vm.buf, 30), A2: g.optIdx(vm.length, detP, vm.buf, 40)}
-		if !g.wild && vm.kind == 9 && val.Big { // recorded finding: BigInt64Array.fill stores |v| for negative v
-			z, _ := new(big.Int).SetString(val.Z, 10)
-			w := toBigInt64(z)
-			if w.Sign() < 0 && w.Cmp(new(big.Int).Lsh(big.NewInt(-1), 63)) != 0 {
-				val.Z = new(big.Int).Neg(w).String()
-			}
-		}
-		if val.Big != isBig(vm.kind) { // wrong type: TypeError; keep the other coercions free of effects (order differs, noted)
+		if val.Big != isBig(vm.kind) && !g.wild { // open finding C17-N8 (coercion order): wrong type + effects in start/end
 			if o.A1 != nil {
 				o.A1.D = 0
 			}
@@ -422,6 +375,9 @@ func (g *gen) op() *Op {
 		dm := e.dvs[d]
 		k := r.Intn(11)
 		o := &Op{O: "dvget", V: d, K: k, Le: r.Bool()}
+		if r.Chance(30) { // the big-endian default
+			o.Le, o.NoLe = false, true
+		}
 		if r.Chance(75) {
 			o.A1 = plain(r.Intn(max(dm.length-esize[k]+2, 1)))
 		} else {
@@ -435,19 +391,8 @@ func (g *gen) op() *Op {
 		return o
 	case 13: // bufslice
 		b := r.Intn(nb)
-		if e.bufs[b].ab.Detached() && !g.wild {
-			return nil // recorded finding: no TypeError on a detached receiver
-		}
 		n := len(e.bufs[b].mem)
 		o := &Op{O: "bufslice", B: b, A1: g.optIdx(n, detP, b, 25), A2: g.optIdx(n, detP, b, 40)}
-		if !g.wild {
-			if o.A1 != nil && o.A1.D == b+1 {
-				o.A1.D = 0
-			}
-			if o.A2 != nil && o.A2.D == b+1 {
-				o.A2.D = 0
-			}
-		}
 		return o
 	case 14: // gowrite
 		b := r.Intn(nb)
@@ -460,23 +405,10 @@ func (g *gen) op() *Op {
 		return &Op{O: "detach", B: r.Intn(nb)}
 	case 16:
 		return &Op{O: "lens", V: r.Intn(nv)}
+	case 17:
+		return &Op{O: "sort", V: r.Intn(nv)}
 	}
 	return nil
-}
-
-// copyWithin: a detach during the coercions with final > from but nothing to copy (recorded finding)
-func (g *gen) avoidCopyWithinDetach(o *Op) bool {
-	if o.O != "copywithin" || g.wild {
-		return false
-	}
-	vm := g.e.views[o.V]
-	det := func(a *IArg) bool { return a != nil && a.D == vm.buf+1 }
-	if !(det(o.A1) || det(o.A2) || det(o.A3)) {
-		return false
-	}
-	l := int64(vm.length)
-	to, from, final := relIdx(argInt(o.A1, 0), l), relIdx(argInt(o.A2, 0), l), relIdx(argInt(o.A3, l), l)
-	return final > from && to >= l
 }
 
 func genCase(r *vh.Rng, wild bool) Case {
@@ -493,7 +425,7 @@ func genCase(r *vh.Rng, wild bool) Case {
 	nops := 6 + r.Intn(20)
 	for tries := 0; len(c.Ops) < nops && tries < 200; tries++ {
 		o := g.op()
-		if o == nil || !g.e.valid(o) || g.avoidCopyWithinDetach(o) {
+		if o == nil || !g.e.valid(o) {
 			continue
 		}
 		so := g.e.runOp(o)
@@ -505,11 +437,3 @@ func genCase(r *vh.Rng, wild bool) Case {
 	return c
 }
 
-func toBigInt64(n *big.Int) *big.Int {
-	two64 := new(big.Int).Lsh(big.NewInt(1), 64)
-	r := new(big.Int).Mod(n, two64)
-	if r.Cmp(new(big.Int).Lsh(big.NewInt(1), 63)) >= 0 {
-		r.Sub(r, two64)
-	}
-	return r
-}
